@@ -12,6 +12,8 @@ DEFAULT = dict(
     p_fault_classes=0.0,  # params.fault_classes: scripted faults are TypeError / AssertionError / KeyError / RuntimeError / ValueError instances
     p_dup=0.0,        # one yield that lists the same stored (not yet started) handle twice, with fresh futures in between
     p_manual_ctx=0.0, # contexts entered and left by explicit __enter__/__exit__ calls, in non-nested order
+    p_exit_fault=0.0, # AsyncContexts whose pause() raises when it is the one made by __exit__ (fault {"exit": e}); most such
+                      # blocks sit in a try whose handler lets the task carry on (it can be suspended again afterwards)
     p_via_cancel=0.0, # a flush body that fails does so by cancelling its own batch and returning normally
     p_base_err=0.0,   # params.base_errors: every third fault id is a BaseException that is not an Exception
     p_diamond=0.0,    # a stored handle of a task that holds a context across a suspension, awaited by 2-3 sibling tasks, each from
@@ -116,6 +118,8 @@ class Gen:
             fault = {self.r.choice(["resume", "pause"]): [k, self.ferr()]}
             if c["p_sticky"] > 0 and "pause" in fault and self.r.random() < c["p_sticky"]:
                 fault["sticky"] = True
+        if fault is None and c["p_exit_fault"] > 0 and self.r.random() < c["p_exit_fault"]:
+            fault = {"exit": self.ferr()}
         return {"async": [self.ncid, fault]}
 
     def retexpr(self, vals):
@@ -249,8 +253,17 @@ class Gen:
                 out.append({"op": "sync", "x": x, "h": h})
                 vals.append(x)
             elif bd < 3 and hit(c["p_with"]):
-                body = self.block(depth, vals, hands, self.r.randrange(1, 3), False, bd + 1)
-                out.append({"op": "with", "c": self.ctx(), "body": body})
+                v0, h0 = (list(vals), list(hands)) if c["p_exit_fault"] > 0 else (vals, hands)
+                body = self.block(depth, v0, h0, self.r.randrange(1, 3), False, bd + 1)
+                w = {"op": "with", "c": self.ctx(), "body": body}
+                xf = "async" in w["c"] and w["c"]["async"][1] is not None and "exit" in w["c"]["async"][1]
+                if xf and self.r.random() < 0.75:
+                    # a handler around the block: the task survives the error raised on exit and runs on
+                    x = self.fx()
+                    handler = self.block(depth, list(vals) + [x], list(hands), self.r.randrange(0, 2), False, bd + 1)
+                    out.append({"op": "try", "body": [w], "x": x, "handler": handler})
+                else:
+                    out.append(w)
             elif bd < 3 and hit(c["p_try"]):
                 v0, h0 = list(vals), list(hands)
                 body = self.block(depth, v0, h0, self.r.randrange(1, 3), self.r.random() < 0.2, bd + 1)
